@@ -621,6 +621,9 @@ func c06Lexical(ctx *core.Ctx, r *gen.Rng) {
 			c6addArg(ctx, pl, c6junk{{kind: 's', b: ' '}}, c6arg{first: c6dqPart(dr, t, true)}, nil, "literal-ws")
 		}
 	}
+	for _, t := range []string{"2nd", "-x", "+1a", "42", "1.5"} { // known finding 7 (the last two are read back correctly)
+		c6addArg(ctx, c6placeByName(places, "extension-arg"), c6junk{{kind: 's', b: ' '}}, c6arg{first: c6part{style: 'u', body: t}}, nil, "extension-numeric")
+	}
 	for _, t := range []string{"a\u00a0b", "a\x0bb", "x\u2028", "é", "日本"} {
 		c6addArg(ctx, desc, c6junk{{kind: 's', b: ' '}}, c6arg{first: c6part{style: 'u', body: t}}, nil, "unquoted-unicode")
 	}
